@@ -106,6 +106,10 @@ CLAIMED = {
             "on_exit callbacks are only appended, traversed only by cleanup_from_self with reverse iterators and reset under the same guard, hence run once in reverse order for every exit cause; join() finishes the sleep created with the caller's timeout both when the target is already dying and from a callback appended to the target's on_exit, and the S4U wrapper answers at once for a dead target; the kill timer calls exit() and reschedules; the daemon-killing loop is dominated by actor_list_.size() == daemons_.size() and the daemon set/flag change only together in daemonize/undaemonize; after every context switch yield() re-yields while suspended_, SleepImpl::finish re-suspends instead of answering, ActorImpl::suspend/resume visit every activity, and suspend()/resume() of each activity class agree on the null test of the model action.",
             'Dates (kill time, join timeout) are C03/C12; whether a sleep keeps elapsing while its actor is suspended is a modelling choice that is not decided.',
             'DESIGN.md §3 C11'),
+    'C02': ('sibling agreement of the run_all / suspend implementations (loop shape, index chain in linear form), dataflow identity of the run list, who-may-call over all library units with guard dominance on the maestro branch',
+            'The four hand-off implementations (serial thread, parallel thread, swapped sequential, swapped parallel) are decoded from their CFGs: each gives every actor of the run list exactly one turn (list order in the sequential variants: release+wait per actor; i = process_index_++ starting from 1 with the first actor resumed by run_all, next actor = run list[i] while i < count), returns to maestro only when all yielded, and maestro passes actors_to_run_ itself. simcall_handle has exactly three kinds of callers in the 350 units: the sequential loop of EngineImpl::run, the simcall entry point dominated by is_maestro(self) (every other actor takes the yield branch), and the model-checking side; no function of src/kernel/context or xbt/parmap.hpp calls simcall_handle, simcall_answer or the run-list insertion. Hence whatever factory or thread count runs the actors, the kernel sees the same sequence of simcalls.',
+            'Data races in user code or in kernel counters touched from actor context and the memory ordering of the synchro primitives are not decided; raw and boost differ only by the stack switch; exactly-once hand-out by the parallel map is C49.',
+            'DESIGN.md §3 C02'),
 }
 
 NOT_APPLICABLE = {
